@@ -1,4 +1,4 @@
 INIT Init
 NEXT Next
-INVARIANTS NeverOK RetryableOnlyForTransient
+INVARIANTS NeverOK RetryableOnlyForTransient EchoFaultsAreFaults
 CHECK_DEADLOCK FALSE
